@@ -10,6 +10,9 @@
 //@ fn PayloadHistory::created
 //@ spec
     ensures res == self.created,
+//@ fn PayloadHistory::metrics
+//@ spec
+    ensures res == self.metrics,
 //@ fn handle_delta
 //@ spec
     ensures res.status_spec() == 200,
